@@ -331,6 +331,22 @@ func (g *Gen) applyContract(fc *FuncContract, names []string, args []TV, cc *ssa
 		} else {
 			g.assume(app("=", res[0], id))
 		}
+		// the new object's contents are its own: give its fields (elements) new, unconstrained values
+		// instead of letting the postcondition constrain what the OLD heap holds at that address
+		// (quantified invariants over all references would otherwise see the future object)
+		if pt, ok := types.Unalias(rts[0]).Underlying().(*types.Pointer); ok {
+			if su, ok := types.Unalias(pt.Elem()).Underlying().(*types.Struct); ok {
+				for i := 0; i < su.NumFields(); i++ {
+					key := g.fieldKey(types.Unalias(pt.Elem()), i)
+					nv := g.freshOf("ff_"+su.Field(i).Name(), su.Field(i).Type())
+					g.set(key, app("store", g.get(g.st, key), res[0], nv))
+				}
+			}
+		} else if sl, ok := types.Unalias(rts[0]).Underlying().(*types.Slice); ok {
+			key := g.elemKey(sl.Elem())
+			nv := g.fresh("fe", "(Array Int "+g.sortOf(sl.Elem())+")")
+			g.set(key, app("store", g.get(g.st, key), id, nv))
+		}
 	}
 	envPost := &Env{g: g, st: g.st, old: pre, vars: map[string]TV{}, args: formals}
 	for i, t := range rts {
